@@ -22,12 +22,29 @@ EXTENDS Integers, Sequences, TLC, Json
 
 CONSTANTS Ids,       \* abstract ids: small naturals, 0 is the empty string
           Channels,  \* subset of {"org", "user"}: which id is propagated
-          MaxHops    \* chains of at most this many hops
+          MaxHops,   \* chains of at most this many hops
+          InProc,    \* BOOLEAN: hops over in-process carriers (http.Header / metadata.MD objects)
+          WireHops,  \* BOOLEAN: hops over the real stacks (net/http, gRPC over HTTP/2)
+          HTTPRefused, \* ids net/http refuses to put on the wire (NUL, CR, LF, DEL ... in the value)
+          GRPCRefused, \* ids gRPC refuses to put on the wire (anything outside printable ASCII)
+          HTTPTrim     \* [Ids -> Ids]: what HTTP/1.1 delivers for an id - optional white space
+                       \* around a header value is not part of the value (RFC 7230), so an id with
+                       \* leading / trailing blanks arrives trimmed (a named deviation, see below)
 
 None  == -1          \* no id
 Empty == 0           \* the empty string
 
 ASSUME Empty \in Ids /\ None \notin Ids /\ Channels \subseteq {"org", "user"}
+ASSUME /\ InProc \in BOOLEAN /\ WireHops \in BOOLEAN
+       /\ HTTPRefused \subseteq Ids /\ GRPCRefused \subseteq Ids
+       /\ HTTPTrim \in [Ids -> Ids]
+       /\ \A i \in Ids : HTTPTrim[HTTPTrim[i]] = HTTPTrim[i]      \* idempotent
+       /\ HTTPTrim[Empty] = Empty
+
+\* instances for the configs
+NoTrim  == [i \in Ids |-> i]
+\* id 5 is id 1 with a blank appended ("tenant-a " vs "tenant-a")
+OWSTrim == [i \in Ids |-> IF i = 5 THEN 1 ELSE i]
 
 VARIABLES chan,    \* the channel of this behaviour
           at,      \* "ctx" | "http" | "grpc" | "rejected"
@@ -91,6 +108,7 @@ Step(a, pre, present, stale) ==
 (* a different non-empty id is already present; otherwise the header is    *)
 (* set to exactly the id (all previous values replaced).                   *)
 CtxToHTTP(pre) ==
+    /\ InProc
     /\ at = "ctx"
     /\ IF ctx = None THEN Refuse("no_id")
        ELSE IF First(pre) # Empty /\ First(pre) # ctx THEN Refuse("different_id")
@@ -103,6 +121,7 @@ CtxToHTTP(pre) ==
 (* `stale` is an id the receiving side's base context may already carry:   *)
 (* it must not survive.                                                    *)
 HTTPToCtx(stale) ==
+    /\ InProc
     /\ at = "http"
     /\ IF First(hdr) = Empty THEN Refuse("no_id")
        ELSE /\ at' = "ctx" /\ ctx' = First(hdr) /\ hdr' = <<>>
@@ -112,6 +131,7 @@ HTTPToCtx(stale) ==
 (* InjectIntoGRPCRequest / the client interceptors: the outgoing metadata  *)
 (* may already have the key (`present`) with values `pre`.                 *)
 CtxToGRPC(present, pre) ==
+    /\ InProc
     /\ chan = "org"
     /\ at = "ctx"
     /\ IF ctx = None THEN Refuse("no_id")
@@ -124,6 +144,7 @@ CtxToGRPC(present, pre) ==
 (* ExtractFromGRPCRequest / the server interceptors: exactly one value, or *)
 (* the call is refused.                                                    *)
 GRPCToCtx(stale) ==
+    /\ InProc
     /\ chan = "org"
     /\ at = "grpc"
     /\ IF Len(md) # 1 THEN Refuse("no_id")
@@ -131,7 +152,63 @@ GRPCToCtx(stale) ==
             /\ UNCHANGED <<hdr, err>>
     /\ Step("GRPCToCtx", <<>>, FALSE, stale)
 
-Next == \/ \E pre \in Vals : CtxToHTTP(pre)
+-----------------------------------------------------------------------------
+(* Wire-level hops: both halves of a hop run through the real stacks, so a   *)
+(* hop leads from a context to a context.  The transport may refuse to      *)
+(* carry an id at all ("transport": a named outcome, not a changed id), and  *)
+(* HTTP delivers HTTPTrim[id].                                              *)
+
+(* InjectOrgIDIntoHTTPRequest -> net/http client -> server -> AuthenticateUser *)
+HTTPWire(pre) ==
+    /\ WireHops /\ chan = "org"
+    /\ at = "ctx"
+    /\ IF ctx = None THEN Refuse("no_id")
+       ELSE IF First(pre) # Empty /\ First(pre) # ctx THEN Refuse("different_id")
+       ELSE IF ctx \in HTTPRefused THEN Refuse("transport")
+       ELSE IF HTTPTrim[ctx] = Empty THEN Refuse("no_id")
+       ELSE /\ at' = "ctx" /\ ctx' = HTTPTrim[ctx]
+            /\ UNCHANGED <<hdr, md, err>>
+    /\ Step("HTTPWire", pre, pre # <<>>, None)
+
+(* a foreign client's request (header values hdr) reaching AuthenticateUser *)
+HTTPWireIn ==
+    /\ WireHops /\ chan = "org"
+    /\ at = "http"
+    /\ IF \E i \in DOMAIN hdr : hdr[i] \in HTTPRefused THEN Refuse("transport")
+       ELSE IF HTTPTrim[First(hdr)] = Empty THEN Refuse("no_id")
+       ELSE /\ at' = "ctx" /\ ctx' = HTTPTrim[First(hdr)] /\ hdr' = <<>>
+            /\ UNCHANGED <<md, err>>
+    /\ Step("HTTPWireIn", <<>>, FALSE, None)
+
+(* client interceptor -> HTTP/2 -> server interceptor (unary and stream) *)
+GRPCWire(present, pre) ==
+    /\ WireHops /\ chan = "org"
+    /\ at = "ctx"
+    /\ IF ctx = None THEN Refuse("no_id")
+       ELSE IF present /\ Len(pre) # 1 THEN Refuse("too_many_ids")
+       ELSE IF present /\ pre[1] # ctx THEN Refuse("different_id")
+       ELSE IF ctx \in GRPCRefused THEN Refuse("transport")
+       ELSE /\ at' = "ctx" /\ UNCHANGED <<ctx, hdr, md, err>>
+    /\ Step("GRPCWire", pre, present, None)
+
+(* a foreign client's call (metadata values md) reaching the server interceptor *)
+GRPCWireIn ==
+    /\ WireHops /\ chan = "org"
+    /\ at = "grpc"
+    /\ IF \E i \in DOMAIN md : md[i] \in GRPCRefused THEN Refuse("transport")
+       ELSE IF Len(md) # 1 THEN Refuse("no_id")
+       ELSE /\ at' = "ctx" /\ ctx' = md[1] /\ md' = <<>>
+            /\ UNCHANGED <<hdr, err>>
+    /\ Step("GRPCWireIn", <<>>, FALSE, None)
+
+WireNext == \/ \E pre \in Vals : HTTPWire(pre)
+            \/ HTTPWireIn
+            \/ \E pre \in Vals : GRPCWire(TRUE, pre)
+            \/ GRPCWire(FALSE, <<>>)
+            \/ GRPCWireIn
+
+Next == \/ WireNext
+        \/ \E pre \in Vals : CtxToHTTP(pre)
         \/ \E stale \in Ids \cup {None} : HTTPToCtx(stale)
         \/ \E pre \in Vals : CtxToGRPC(TRUE, pre)
         \/ CtxToGRPC(FALSE, <<>>)
@@ -144,15 +221,32 @@ TypeOK == /\ chan \in Channels
           /\ at \in {"ctx", "http", "grpc", "rejected"}
           /\ ctx \in Ids \cup {None}
           /\ hdr \in Vals /\ md \in Vals
-          /\ err \in {"", "no_id", "different_id", "too_many_ids"}
+          /\ err \in {"", "no_id", "different_id", "too_many_ids", "transport"}
           /\ origin \in Ids \cup {None}
           /\ hops \in 0..MaxHops
 
 (* The property: whatever a hop delivers is the id the chain started with. *)
 Unchanged == (at # "rejected" /\ hops > 0) => (Carried = origin /\ origin # None)
 
+(* Wire level: the same, up to the optional white space HTTP strips.  With *)
+(* HTTPTrim = NoTrim this is Unchanged.  With OWSTrim it is the weaker      *)
+(* statement the real stacks satisfy; the strict Unchanged is violated     *)
+(* (MC_prop_wire_strict.cfg shows TLC's counterexample: "tenant-a " placed *)
+(* in a context arrives as "tenant-a" after one HTTP hop).                 *)
+UnchangedUpToOWS == (at # "rejected" /\ hops > 0) =>
+                        /\ origin # None
+                        /\ Carried \in {origin, HTTPTrim[origin]}
+\* an id is only ever altered by an HTTP wire hop, and only an id HTTPTrim moves
+AlteredOnlyByHTTPTrim ==
+    [][(at' # "rejected" /\ Carried' # Carried) =>
+          /\ Carried \in Ids /\ Carried' = HTTPTrim[Carried]
+          /\ hist'[Len(hist')].a \in {"HTTPWire", "HTTPWireIn"}]_vars
+\* the transport never delivers an id it was documented to refuse
+TransportRefusalIsNotDelivery ==
+    [][(hist'[Len(hist')].a = "GRPCWire" /\ ctx \in GRPCRefused) => at' = "rejected"]_vars
+
 (* A request without an id is refused at its first hop, never defaulted.   *)
-NeverDefaulted == (origin = None /\ hops > 0) => (at = "rejected" /\ err = "no_id")
+NeverDefaulted == (origin = None /\ hops > 0) => (at = "rejected" /\ err \in {"no_id", "transport"})
 
 (* What the code writes is a single value. *)
 SingleValueWritten == hops > 0 => (at = "http" => Len(hdr) = 1) /\ (at = "grpc" => Len(md) = 1)
